@@ -269,6 +269,9 @@ func constify(t *rapid.T, f *File, auto AutoCfg) []cdef {
 	var defs []cdef
 	for i := 0; i < nconst; i++ {
 		name := fmt.Sprintf("K%d", i)
+		if i == 0 && rapid.IntRange(0, 3).Draw(t, "unicodename") == 0 {
+			name = rapid.SampledFrom([]string{"Éclair", "ΩMEGA", "ñ_item", "KÉ"}).Draw(t, "uname")
+		}
 		if i == nconst-1 && rapid.IntRange(0, 4).Draw(t, "resultvarname") == 0 {
 			// a constant that happens to be named like the result var of an AutoVar command:
 			// written uses of that name are substituted, the implicit result var of the command is not
